@@ -23,7 +23,10 @@ Record rcfg := mkRcfg {
 }.
 
 (* limitedReader trips while the message is still being read: the flate reader pulls the message frame
-   by frame (frames up to the size of its 4096 byte bufio.Reader) and hands out what it can decode *)
+   by frame (frames up to the size of its 4096 byte bufio.Reader).  rc_avail d = what it has handed out
+   when it asks for input beyond d (compress/flate hands out at the end of a block, when its window is
+   full, or on an error - not whatever it has decoded); rc_avail (at_eof d) = what it hands out when the
+   stream ends after d. *)
 Definition gtrip (cfg : rcfg) (dc : bool) (data : bytes) : bool :=
   dc && (0 <? rc_dlimit cfg) && (rc_dlimit cfg <? rc_avail cfg data).
 
@@ -219,7 +222,7 @@ Definition data_step (cfg : rcfg) (inflate : bytes -> option bytes) (cur : optio
       match take_n len rest with
       | None =>
           (* stream ends inside the payload; the flate reader has seen what did arrive *)
-          if gtrip cfg dc (acc ++ (if rc_server cfg then xor_mask key 0 rest else rest)) then GEnd too_big_after_decompression
+          if gtrip cfg dc (at_eof (acc ++ (if rc_server cfg then xor_mask key 0 rest else rest))) then GEnd too_big_after_decompression
           else GEnd [Err EEof]
       | Some (pl, rest') =>
           let data := acc ++ (if rc_server cfg then xor_mask key 0 pl else pl) in
